@@ -58,7 +58,8 @@ type NCServer struct {
 
 	in       []byte
 	start    time.Time
-	barriers []int // relative to the bytes being returned
+	barriers []int    // relative to the bytes being returned
+	spans    [][2]int // whole server messages, relative to the bytes being returned
 	Broken   string
 }
 
@@ -69,10 +70,18 @@ func (s *NCServer) Connect() []byte {
 	s.start = time.Now()
 
 	if s.Hello != "" {
-		s.barriers = append(s.barriers, len(s.Hello))
+		s.spans = append(s.spans, [2]int{0, len(s.Hello)})
 	}
 
 	return []byte(s.Hello)
+}
+
+// TakeSpans implements the pipe's span source.
+func (s *NCServer) TakeSpans() [][2]int {
+	sp := s.spans
+	s.spans = nil
+
+	return sp
 }
 
 // TakeBarriers implements the pipe's barrier source.
@@ -172,8 +181,8 @@ func (s *NCServer) Input(b []byte) []byte {
 				continue
 			}
 
+			s.spans = append(s.spans, [2]int{len(out), len(out) + len(framed)})
 			out = append(out, framed...)
-			s.barriers = append(s.barriers, len(out))
 		}
 	}
 
